@@ -166,12 +166,149 @@ def r08e(ctx):
                 ctx.report("R08e", f, f.node, f"{cname}.{name}(clone={ast.unparse(d['clone'])})", "a getter documented as returning copies defaults to clone=False")
 
 
+def r08f(ctx):
+    """Row traversal: the stamp `row.y` is the row's position.
+
+    `Table.traverse` stamps each row it receives from a producer generator with a counter.
+    The k-th item received (k from 0) is stamped init + (k + 1) if the counter is advanced
+    before the stamp, init + k otherwise.  Exact argument for the design in the tree: the
+    producer yields, for every XML row from the first on, exactly `repeated or 1` copies
+    (no path through an iteration without its yields), so the k-th item *is* logical row k,
+    and the stamp is right iff the counter starts at the matching constant (-1 / 0).
+    A producer that can skip XML rows and then expands a run from its head starts at a run
+    head only the table's run structure determines; a consumer whose counter starts from a
+    value computed from its own parameters cannot match it for every table → violation.
+    Any other protocol (partial expansion, positions handed over by the producer) is not
+    decided by this rule and stops the check as undecided (exit 2) rather than passing.
+    """
+    from ..paths import cfg_of, node_of
+    repo = ctx.repo
+    ctx.rule("R08f", "Table.traverse: the y stamped on each expanded row is its position (complete producer from row 0, counter from the matching constant, range tests on the counter)", floor=5)
+    f = repo.func("Table.traverse")
+    where = f"{f.file}:{f.ident}"
+    loops = [n for n in walk_no_nested(f.node) if isinstance(n, ast.For) and any(isinstance(x, ast.Yield) for x in ast.walk(n))]
+    if len(loops) != 1 or not (isinstance(loops[0].iter, ast.Call) and isinstance(loops[0].iter.func, ast.Attribute) and is_self_attr(loops[0].iter.func)):
+        raise AnalysisError("R08f: Table.traverse no longer is one loop over a producer method that yields")
+    loop = loops[0]
+    item = loop.target.id if isinstance(loop.target, ast.Name) else None
+    stamps = [a for a in ast.walk(loop) if isinstance(a, ast.Assign) and isinstance(a.targets[0], ast.Attribute) and a.targets[0].attr == "y"
+              and isinstance(a.targets[0].value, ast.Name) and a.targets[0].value.id == item]
+    ok = len(stamps) == 1 and isinstance(stamps[0].value, ast.Name)
+    ctx.instance("R08f", where, f"each received row is stamped once from a counter ({[norm(a, 30) for a in stamps]})", ok=ok, line=loop.lineno)
+    if not ok:
+        ctx.report("R08f", f, loop, "rows are not stamped with a counter", "Table.traverse does not stamp `y` on the rows it yields from one counter")
+        return
+    cvar = stamps[0].value.id
+    cfg = cfg_of(f)
+    head, sn = node_of(cfg, loop), node_of(cfg, stamps[0])
+    incs = [a for a in ast.walk(loop) if isinstance(a, ast.AugAssign) and isinstance(a.target, ast.Name) and a.target.id == cvar]
+    others = [a for a in ast.walk(loop) if isinstance(a, (ast.Assign, ast.AnnAssign)) and any(isinstance(t, ast.Name) and t.id == cvar for t in ast.walk(a) if isinstance(getattr(t, "ctx", None), ast.Store))]
+    one = len(incs) == 1 and not others and isinstance(incs[0].op, ast.Add) and repo.fold(incs[0].value, f.module) == 1 and incs[0] in loop.body
+    inc_n = node_of(cfg, incs[0]) if incs else None
+    first = node_of(cfg, loop.body[0])
+    every = one and cfg.path_avoiding(first, head, [inc_n], follow_exc=False) is None
+    ctx.instance("R08f", where, f"the counter `{cvar}` advances by exactly one for every item received", ok=bool(every), nontrivial=True, line=incs[0].lineno if incs else loop.lineno)
+    if not every:
+        ctx.report("R08f", f, incs[0] if incs else loop, f"`{cvar}` does not advance by one per received row",
+                   "the stamp counter of Table.traverse is not advanced exactly once per expanded row: later rows carry a wrong y")
+        return
+    pre = cfg.dominates(inc_n, sn)
+    want = -1 if pre else 0
+    inits = [a for a in walk_no_nested(f.node) if isinstance(a, ast.Assign) and len(a.targets) == 1 and isinstance(a.targets[0], ast.Name) and a.targets[0].id == cvar
+             and a not in list(ast.walk(loop))]
+    init_val = repo.fold(inits[0].value, f.module) if len(inits) == 1 else UNKNOWN
+    params = {a.arg for a in f.node.args.args + f.node.args.kwonlyargs}
+    # ---- the producer
+    pname = loop.iter.func.attr
+    g = repo.func(f"Table.{pname}")
+    gcfg = cfg_of(g)
+    outer = [n for n in walk_no_nested(g.node) if isinstance(n, ast.For) and any(isinstance(x, ast.Yield) for x in ast.walk(n))
+             and not any(isinstance(p_, ast.For) and n is not p_ and n in list(ast.walk(p_)) for p_ in walk_no_nested(g.node))]
+    src_ok = len(outer) == 1 and isinstance(outer[0].iter, ast.Call) and call_name(outer[0].iter) in ("_get_rows", "get_elements")
+    if not src_ok:
+        raise AnalysisError(f"R08f: producer Table.{pname} no longer is one loop over the table's XML rows")
+    ol = outer[0]
+    rowv = ol.target.id if isinstance(ol.target, ast.Name) else "?"
+    inner = [n for n in ast.walk(ol) if isinstance(n, ast.For) and n is not ol and any(isinstance(x, ast.Yield) for x in ast.walk(n))]
+    direct = [x for st in ast.walk(ol) for x in [st] if isinstance(x, ast.Yield) and not any(x in list(ast.walk(i)) for i in inner)]
+    ynodes = [node_of(gcfg, x) for x in direct] + [node_of(gcfg, i) for i in inner]
+    gfirst, ghead = node_of(gcfg, ol.body[0]), node_of(gcfg, ol)
+    skip = gcfg.path_avoiding(gfirst, ghead, [y for y in ynodes if y is not None], follow_exc=False)
+    # full expansion from the head of the run: `for _ in range(row.repeated)` each iteration yielding; a direct yield only for an unrepeated row
+    full = True
+    why = ""
+    for i in inner:
+        it = i.iter
+        rng = isinstance(it, ast.Call) and call_name(it) == "range" and len(it.args) == 1 and isinstance(it.args[0], ast.Attribute) and it.args[0].attr == "repeated" \
+            and isinstance(it.args[0].value, ast.Name) and it.args[0].value.id == rowv
+        ys = [node_of(gcfg, x) for x in ast.walk(i) if isinstance(x, ast.Yield)]
+        each = gcfg.path_avoiding(node_of(gcfg, i.body[0]), node_of(gcfg, i), ys, follow_exc=False) is None
+        if not (rng and each):
+            full, why = False, f"inner expansion `{norm(i.iter, 30)}` is not one yield per repetition from the head of the run"
+    for x in direct:
+        gs = structural_guards(x, stop=ol)
+        unrep = any(pol and isinstance(t, ast.Compare) and isinstance(t.ops[0], ast.Is) and isinstance(t.left, ast.Attribute) and t.left.attr == "repeated"
+                    and isinstance(t.comparators[0], ast.Constant) and t.comparators[0].value is None for t, pol in gs)
+        if not unrep:
+            full, why = False, f"`{norm(x, 30)}` yields one item for a row that may be repeated"
+    gparams = [a.arg for a in g.node.args.args[1:] + g.node.args.kwonlyargs]
+    complete = skip is None and full
+    ctx.instance("R08f", f"{g.file}:{g.ident}", f"producer yields `repeated or 1` copies of every XML row, from the first row on (skip path: {skip is not None}; {why or 'full expansion'})",
+                 ok=complete or (skip is not None and full), nontrivial=True, line=ol.lineno)
+    if not full:
+        if skip is None and not gparams:
+            ctx.report("R08f", g, ol, f"Table.{pname}: {why}", f"the row producer does not yield one copy per repetition: {why}; positions of the following rows shift")
+            return
+        raise AnalysisError(f"R08f: producer protocol not recognised ({why}); the rule cannot decide the stamps")
+    if complete:
+        ok = init_val == want
+        ctx.instance("R08f", where, f"counter starts at {init_val!r} ({'advanced before' if pre else 'advanced after'} the stamp: must be {want})", ok=ok, nontrivial=True,
+                     line=inits[0].lineno if inits else loop.lineno)
+        if not ok:
+            ctx.report("R08f", f, inits[0] if inits else loop, f"`{cvar}` starts at {norm(inits[0].value, 30) if inits else '?'} while the producer starts at row 0",
+                       "the producer yields every row from row 0, so the k-th item is row k; the counter does not start at the matching constant: every stamp is shifted")
+            return
+    else:
+        own = len(inits) == 1 and all((isinstance(x, ast.Name) and (x.id in params)) or not isinstance(x, ast.Name) for x in ast.walk(inits[0].value))
+        skipstmt = [x for x in skip if x.stmt is not None][-1].stmt
+        if own:
+            ctx.instance("R08f", where, f"counter start `{norm(inits[0].value, 30)}` cannot know where a skipping producer resumes", ok=False, nontrivial=True, line=inits[0].lineno)
+            ctx.report("R08f", g, skipstmt, f"Table.{pname} skips XML rows (`{norm(skipstmt, 40)}`) and resumes at the head of a run; Table.traverse numbers from `{norm(inits[0].value, 30)}`",
+                       f"the producer skips whole runs and expands the next run from its head — a position fixed by the table's repeat structure — while Table.traverse starts its "
+                       f"stamps from `{norm(inits[0].value, 30)}`, computed from its own arguments: when the range starts inside a repeated run, rows are stamped (and returned) "
+                       f"at the wrong positions")
+            return
+        raise AnalysisError("R08f: skipping producer with a start position not computed from the consumer's own arguments: protocol not recognised")
+    # ---- range tests on the counter, before the yield
+    yn = [node_of(cfg, x) for x in ast.walk(loop) if isinstance(x, ast.Yield)]
+    tests = {"start": None, "end": None}
+    for n in ast.walk(loop):
+        if isinstance(n, ast.If) and isinstance(n.test, ast.Compare) and len(n.test.ops) == 1:
+            names = {x.id for x in ast.walk(n.test) if isinstance(x, ast.Name)}
+            if cvar in names and n.body and isinstance(n.body[-1], (ast.Continue, ast.Return, ast.Break)):
+                l, op, r = n.test.left, n.test.ops[0], n.test.comparators[0]
+                lt = (isinstance(l, ast.Name) and l.id == cvar and isinstance(op, ast.Lt)) or (isinstance(r, ast.Name) and r.id == cvar and isinstance(op, ast.Gt))
+                gt = (isinstance(l, ast.Name) and l.id == cvar and isinstance(op, ast.Gt)) or (isinstance(r, ast.Name) and r.id == cvar and isinstance(op, ast.Lt))
+                if "start" in names and lt and isinstance(n.body[-1], ast.Continue):
+                    tests["start"] = n
+                if "end" in names and gt and isinstance(n.body[-1], (ast.Return, ast.Break)):
+                    tests["end"] = n
+    for k, n in tests.items():
+        ok = n is not None and all(cfg.dominates(node_of(cfg, n), y) for y in yn) and cfg.dominates(sn, node_of(cfg, n)) is False and (not pre or cfg.dominates(inc_n, node_of(cfg, n)))
+        ctx.instance("R08f", where, f"rows {'before `start` are passed over' if k == 'start' else 'after `end` stop the traversal'} by a strict test on the counter, before the yield",
+                     ok=ok, nontrivial=True, line=n.lineno if n is not None else loop.lineno)
+        if not ok:
+            ctx.report("R08f", f, n or loop, f"no strict `{cvar}` against `{k}` test before the yield",
+                       f"Table.traverse does not bound the rows it yields by `{k}` with a strict comparison on the position counter: a ranged read returns other rows than those addressed")
+
+
 def run(ctx):
     tom = run_tom(ctx.repo)
     r08ab(ctx, tom)
     r08c(ctx)
     r08d(ctx)
     r08e(ctx)
+    r08f(ctx)
 
 
 from ..selftest import Seed, unparse_seed  # noqa: E402
@@ -179,6 +316,19 @@ from ..selftest import Seed, unparse_seed  # noqa: E402
 _T = "src/odfdo/table.py"
 _R = "src/odfdo/row.py"
 SEEDS = [
+    Seed("Table.traverse counts from 0 though it advances before stamping", "fault", _T, '        y = -1\n        for row in self._yield_odf_rows():\n            y += 1\n            if y < start:\n                continue\n            if y > end:\n                return\n            row.y = y\n            yield row\n', '        y = 0\n        for row in self._yield_odf_rows():\n            y += 1\n            if y < start:\n                continue\n            if y > end:\n                return\n            row.y = y\n            yield row\n', "R08f"),
+    Seed("Table.traverse no longer passes over the rows before start", "fault", _T, '        y = -1\n        for row in self._yield_odf_rows():\n            y += 1\n            if y < start:\n                continue\n            if y > end:\n                return\n            row.y = y\n            yield row\n', '        y = -1\n        for row in self._yield_odf_rows():\n            y += 1\n            if y > end:\n                return\n            row.y = y\n            yield row\n', "R08f"),
+    Seed("Table.traverse stops one row early", "fault", _T, '        y = -1\n        for row in self._yield_odf_rows():\n            y += 1\n            if y < start:\n                continue\n            if y > end:\n                return\n            row.y = y\n            yield row\n', '        y = -1\n        for row in self._yield_odf_rows():\n            y += 1\n            if y < start:\n                continue\n            if y >= end:\n                return\n            row.y = y\n            yield row\n', "R08f"),
+    Seed("Table.traverse advances only for rows in range", "fault", _T, '        y = -1\n        for row in self._yield_odf_rows():\n            y += 1\n            if y < start:\n                continue\n            if y > end:\n                return\n            row.y = y\n            yield row\n',
+         '        y = -1\n        for row in self._yield_odf_rows():\n            if y + 1 < start:\n                continue\n            y += 1\n            if y > end:\n                return\n            row.y = y\n            yield row\n', "R08f"),
+    Seed("row producer skips the runs before start, traverse numbers from start", "fault", _T, '        y = -1\n        for row in self._yield_odf_rows():\n            y += 1\n            if y < start:\n                continue\n            if y > end:\n                return\n            row.y = y\n            yield row\n',
+         '        y = start - 1\n        for row in self._yield_odf_rows(start):\n            y += 1\n            if y > end:\n                return\n            row.y = y\n            yield row\n', "R08f",
+         edits=[(_T, "    def _yield_odf_rows(self):\n        for row in self._get_rows():\n",
+                 "    def _yield_odf_rows(self, start: int = 0):\n        done = 0\n        for row in self._get_rows():\n            done += row.repeated or 1\n            if done <= start:\n                continue\n")]),
+    Seed("row producer yields a repeated row once", "fault", _T, '        for row in self._get_rows():\n            if row.repeated is None:\n                yield row.clone\n            else:\n',
+         '        for row in self._get_rows():\n            if row.repeated is None or row.repeated < 3:\n                yield row.clone\n            else:\n', "R08f"),
+    Seed("Table.traverse: counter renamed", "neutral", _T, '        y = -1\n        for row in self._yield_odf_rows():\n            y += 1\n            if y < start:\n                continue\n            if y > end:\n                return\n            row.y = y\n            yield row\n', '        pos = -1\n        for row in self._yield_odf_rows():\n            pos += 1\n            if pos < start:\n                continue\n            if pos > end:\n                return\n            row.y = pos\n            yield row\n'),
+    Seed("Table.traverse: comparisons mirrored", "neutral", _T, '        y = -1\n        for row in self._yield_odf_rows():\n            y += 1\n            if y < start:\n                continue\n            if y > end:\n                return\n            row.y = y\n            yield row\n', '        y = -1\n        for row in self._yield_odf_rows():\n            y += 1\n            if start > y:\n                continue\n            if end < y:\n                return\n            row.y = y\n            yield row\n'),
     Seed("_yield_odf_rows yields the live row again", "fault", _T, "            if row.repeated is None:\n                yield row.clone", "            if row.repeated is None:\n                yield row", "R08a"),
     Seed("_get_row2 returns the cached row", "fault", _T, "        if clone:\n            return row.clone\n        return row\n\n    def _get_row2_base(", "        return row\n\n    def _get_row2_base(", "R08a"),
     Seed("Row._get_cell2 returns the cached cell", "fault", _R, "        if clone:\n            return self._get_cell2_base(x).clone  # type: ignore\n        else:\n            return self._get_cell2_base(x)",
